@@ -16,15 +16,20 @@ grep "^fixed:" /verif/known_findings.txt | while read -r _ prop commit rest; do
   if ! git -C /repo apply --check $tmp/$commit.diff 2>/dev/null; then
     echo "n/a     $id $commit revert does not apply on HEAD (later fix touches the same lines)" >> $tmp/out; continue
   fi
-  res=$(/verif/scripts/mutant_run.sh $tmp/$commit.diff $id $tier 2>&1)
-  if echo "$res" | grep -q "^VIOLATION property=$id"; then
-    sig=$(echo "$res" | grep -m1 "violation sig=" | sed -E 's/.*violation sig=([^ ]+).*/\1/' | cut -c1-120)
-    echo "caught  $id $commit by $sig" >> $tmp/out
-  elif echo "$res" | grep -q "MUTANT BUILD FAILED"; then
-    echo "n/a     $id $commit reverted tree does not build" >> $tmp/out
-  else
-    echo "MISSED  $id $commit [$(echo "$res" | grep -E "verdict=" | tail -1 | cut -c1-160)] ${rest:0:100}" >> $tmp/out
-  fi
+  # the property's own check first, then the other checks the entry names ("also reported by Cxx")
+  others=$(echo "$rest" | grep -oE "\bC[0-9]{2}\b" | grep -v "^$id$" | sort -u | tr '\n' ' ')
+  verdict=""
+  for cid in $id $others; do
+    res=$(/verif/scripts/mutant_run.sh $tmp/$commit.diff $cid $tier 2>&1)
+    if echo "$res" | grep -q "^VIOLATION property=$cid"; then
+      sig=$(echo "$res" | grep -m1 "violation sig=" | sed -E 's/.*violation sig=([^ ]+).*/\1/' | cut -c1-120)
+      verdict="caught  $id $commit by $cid:$sig"; break
+    elif echo "$res" | grep -q "MUTANT BUILD FAILED"; then
+      verdict="n/a     $id $commit reverted tree does not build"; break
+    fi
+  done
+  [ -z "$verdict" ] && verdict="MISSED  $id $commit (checks tried: $id $others) [$(echo "$res" | grep -E "verdict=" | tail -1 | cut -c1-120)] ${rest:0:100}"
+  echo "$verdict" >> $tmp/out
   tail -1 $tmp/out
 done
 if [ -z "$only" ]; then { echo "# reverting each fix: commit of /repo, check that reports the defect again ($tier tier, $(date -u +%F) HEAD $(git -C /repo rev-parse --short HEAD))"; cat $tmp/out; } > $out; fi
